@@ -334,6 +334,7 @@ class CFGBuilder:
                     self._cond_result = self._inline(e, target, n, stmt, as_cond=True)  # type: ignore[assignment]
                     return []
                 return self._inline(e, target, n, stmt)  # type: ignore[return-value]
+            self._want_cond = False  # (routing the exception may build a `finally` body: its statements are no branch conditions)
             if not self._infallible_call(node):
                 node.may_raise = True
                 t, l = self.route("exc", self.frames)
